@@ -526,6 +526,8 @@ pub struct C26Outcome {
     pub propagated_to_root: bool,
     /// union of the world outcomes consulted by the real run and both reference runs
     pub consulted: BTreeMap<String, world::Outcome>,
+    /// rows of the reference executor's decision table reached by model M
+    pub model_rows: BTreeMap<&'static str, u64>,
 }
 
 /// Run the real synchronous executor and the reference executor over the same world; compare.
@@ -538,6 +540,7 @@ pub fn check_c26(case: &Case, p: &Parsed, trace: bool) -> C26Outcome {
         unsupported: false,
         propagated_to_root: false,
         consulted: BTreeMap::new(),
+        model_rows: BTreeMap::new(),
     };
     let real = match run_sync(case, p, trace) {
         Ok(r) => r,
@@ -602,12 +605,14 @@ pub fn check_c26(case: &Case, p: &Parsed, trace: bool) -> C26Outcome {
             positions: BTreeMap::new(),
             nullified: Default::default(),
             unsupported: None,
+            rows: Default::default(),
         };
         let r = m.execute(case.operation_name.as_deref());
         (m, r)
     };
     let (m, mr) = run_model(true);
     let (f, _fr) = run_model(false);
+    out.model_rows = m.rows.borrow().clone();
     out.consulted = f.world.consulted.clone();
     out.consulted.extend(m.world.consulted.clone());
     out.consulted.extend(real.world.consulted.clone());
